@@ -236,6 +236,8 @@ def dirOf (p : Bytes) : Bytes :=
 structure Cfg where
   enabled : Bool
   allowed : List Bytes
+  hash : Bytes := []      -- PasswordHash; empty = no password configured
+  maxSize : Nat := 0      -- MaxFileSize; 0 = unlimited
   deriving Repr
 
 def normalize (nfc : Bytes → Bytes) (p : Bytes) : Bytes := clean (nfc p)
@@ -314,7 +316,27 @@ inductive Err where
   | notDir
   | notEmpty
   | io                   -- the OS refused (mkdir/open/chmod/remove failed)
+  | authRequired
+  | authFailed
+  | tooLarge             -- refused before anything was written / read
+  | tooLargeWritten      -- upload: the data exceeded MaxFileSize; MaxFileSize+1 bytes were written
   deriving DecidableEq, Repr
+
+/-- What a request carries besides the path, and the two facts about file contents the size limit
+    needs.  bcrypt is the abstract predicate `pwOK hash password`. -/
+structure Ctx where
+  pwOK : Bytes → Bytes → Bool
+  password : Bytes
+  declSize : Int              -- TransferMetadata.Size of an upload (may be -1 / 0 = unknown)
+  sizeOf : Nat → Nat          -- length of the byte string behind a content id
+  trunc : Nat → Nat → Nat     -- content id of the first n bytes of a content
+
+/-- `authenticate`. -/
+def authenticate (x : Ctx) (c : Cfg) : Option Err :=
+  if c.hash = [] then none
+  else if x.password = [] then some .authRequired
+  else if x.pwOK c.hash x.password then none
+  else some .authFailed
 
 structure Result where
   fs : FS
@@ -352,12 +374,23 @@ def dirOnly : Res → Res
 
 /-- entries of `fs1` that `fs` does not have (created by the operation) -/
 def changedKeys (fs fs1 : FS) : List Path :=
-  (fs1.ents.filter (fun e => fs.lookup e.1 ≠ some e.2)).map (·.1)
+  (fs1.ents.filter (fun e => fs1.lookup e.1 ≠ fs.lookup e.1)).map (·.1)
 
 def failR (fs : FS) (e : Err) : Result := ⟨fs, some e, [], []⟩
 
+/-- size of the file behind inode `i` -/
+def fileSize (x : Ctx) (fs : FS) (i : Nat) : Nat :=
+  match fs.content i with
+  | some cid => x.sizeOf cid
+  | none => 0
+
+/-- the download size check: a regular file larger than a configured MaxFileSize -/
+def tooBig (x : Ctx) (c : Cfg) (fs : FS) : Kind → Bool
+  | .file i => decide (c.maxSize > 0) && decide (fileSize x fs i > c.maxSize)
+  | _ => false
+
 /-- download: ValidateDownloadMetadata (after validatePath) + ReadFileForDownload. -/
-def opDownload (nfc : Bytes → Bytes) (fu : Nat) (c : Cfg) (fs : FS) (path : Bytes) : Result :=
+def opDownload (x : Ctx) (nfc : Bytes → Bytes) (fu : Nat) (c : Cfg) (fs : FS) (path : Bytes) : Result :=
   let p := compsOf (clean path)
   -- ValidateDownloadMetadata works on the path AS SENT (the kernel resolves its ".." physically);
   -- validateSymlinkTarget looks only at a symbolic link as the FINAL component
@@ -375,22 +408,29 @@ def opDownload (nfc : Bytes → Bytes) (fu : Nat) (c : Cfg) (fs : FS) (path : By
     | _ => true
   if !symOK then failR fs .symlinkTarget else
   match stt with
-  | .found _ _ =>
+  | .found _ k =>
+    -- size limit for regular files (of the file the path AS SENT resolves to)
+    if tooBig x c fs k then failR fs .tooLarge else
     -- ReadFileForDownload cleans the path lexically and opens it
     (match stat fs fu p with
      | .found q _ => ⟨fs, none, [q], []⟩
      | _ => failR fs .notFound)
   | _ => failR fs .notFound
 
-/-- upload of a single file: WriteUploadedFile (MkdirAll of the parent, open with O_TRUNC). -/
-def opUpload (fu : Nat) (fs : FS) (path : Bytes) (content : Nat) : Result :=
+/-- upload of a single file: the size check of ValidateUploadMetadata, then WriteUploadedFile
+    (MkdirAll of the parent, open with O_TRUNC, copy at most MaxFileSize+1 bytes). -/
+def opUpload (x : Ctx) (fu : Nat) (c : Cfg) (fs : FS) (path : Bytes) (content : Nat) : Result :=
+  if x.declSize > 0 ∧ c.maxSize > 0 ∧ x.declSize > c.maxSize then failR fs .tooLarge else
   let p := compsOf (clean path)
+  let over : Bool := decide (c.maxSize > 0) && decide (x.sizeOf content > c.maxSize)
+  let written := if over then x.trunc content (c.maxSize + 1) else content
+  let err : Option Err := if over then some .tooLargeWritten else none
   match mkdirAll fs fu p.dropLast with
   | (fs1, false) => ⟨fs1, some .io, changedKeys fs fs1, []⟩
   | (fs1, true) =>
     match stat fs1 fu p with
-    | .found q (.file _) => ⟨(openTrunc fs1 fu p content).1, none, changedKeys fs fs1 ++ aliases fs1 q, []⟩
-    | .missing par n => ⟨(openTrunc fs1 fu p content).1, none, changedKeys fs fs1 ++ [par ++ [n]], []⟩
+    | .found q (.file _) => ⟨(openTrunc fs1 fu p written).1, err, changedKeys fs fs1 ++ aliases fs1 q, []⟩
+    | .missing par n => ⟨(openTrunc fs1 fu p written).1, err, changedKeys fs fs1 ++ [par ++ [n]], []⟩
     | _ => ⟨fs1, some .io, changedKeys fs fs1, []⟩
 
 def opList (fu : Nat) (fs : FS) (path : Bytes) : Result :=
@@ -436,10 +476,10 @@ def opDelete (fu : Nat) (fs : FS) (path : Bytes) (recursive : Bool) : Result :=
   | _ => failR fs .notFound
 
 /-- the operation proper, once the request passed `validatePath` -/
-def dispatch (nfc : Bytes → Bytes) (fu : Nat) (c : Cfg) (fs : FS) (op : Op) (path : Bytes) : Result :=
+def dispatch (x : Ctx) (nfc : Bytes → Bytes) (fu : Nat) (c : Cfg) (fs : FS) (op : Op) (path : Bytes) : Result :=
   match op with
-  | .download => opDownload nfc fu c fs path
-  | .upload content => opUpload fu fs path content
+  | .download => opDownload x nfc fu c fs path
+  | .upload content => opUpload x fu c fs path content
   | .list => opList fu fs path
   | .stat => opStat fu fs path
   | .chmod => opChmod fu fs path
@@ -451,11 +491,14 @@ def isBrowse : Op → Bool
   | _ => true
 
 /-- One request.  `path` is the path string of the request. -/
-def runOp (nfc : Bytes → Bytes) (fu : Nat) (c : Cfg) (fs : FS) (op : Op) (path : Bytes) : Result :=
+def runOp (x : Ctx) (nfc : Bytes → Bytes) (fu : Nat) (c : Cfg) (fs : FS) (op : Op) (path : Bytes) : Result :=
   if !c.enabled then failR fs .disabled else
-  if isBrowse op && path.isEmpty then failR fs .pathRequired else
-  match validatePath nfc c path with
-  | .ok => dispatch nfc fu c fs op path
-  | v => failR fs (.invalid v)
+  match authenticate x c with
+  | some e => failR fs e
+  | none =>
+    if isBrowse op && path.isEmpty then failR fs .pathRequired else
+    match validatePath nfc c path with
+    | .ok => dispatch x nfc fu c fs op path
+    | v => failR fs (.invalid v)
 
 end MM.C26
